@@ -209,9 +209,10 @@ inline Finding check_text(const std::string& text, Tally* tally = nullptr, bool 
   return {};
 }
 
-// inputs outside the stated domain that are merely slow: an exponent of more than three digits makes the scanner loop up
-// to 2^31 times, more than 500 brackets exceeds the stated nesting bound. Skipped (and counted) by the fuzz target and by
-// the edit enumeration.
+// inputs outside the stated domain that are merely slow: an exponent whose value exceeds 999 (more than three digits after
+// its leading zeros - the spelling e0000000002 is the exponent 2 and stays inside) makes the scanner loop up to 2^31
+// times, more than 500 brackets exceeds the stated nesting bound. Skipped (and counted) by the fuzz target and by the edit
+// enumeration.
 inline bool out_of_scope(const uint8_t* d, size_t n, const char** why) {
   size_t opens = 0;
   for (size_t k = 0; k < n; k++) {
@@ -219,13 +220,14 @@ inline bool out_of_scope(const uint8_t* d, size_t n, const char** why) {
     if ((d[k] == 'e' || d[k] == 'E') && k + 1 < n) {
       size_t j = k + 1;
       if (d[j] == '+' || d[j] == '-') j++;
+      while (j < n && d[j] == '0') j++; // leading zeros do not change the value
       size_t digits = 0;
       while (j < n && d[j] >= '0' && d[j] <= '9') {
         j++;
         digits++;
       }
       if (digits > 3) {
-        *why = "exponent with more than 3 digits";
+        *why = "exponent above 999 (more than 3 digits after its leading zeros)";
         return true;
       }
     }
